@@ -73,6 +73,7 @@ def run(ck):
     ck.rule("C04.R2", "no second acquisition of the registry lock while it is held", floor=3)
     ck.rule("C04.R3", "lock-free list push: link, CAS, retry with observed head, orderings", floor=5)
     ck.rule("C04.R4", "MacroCallsite registration state machine", floor=4)
+    ck.rule("C04.R7", "the std and no_std registries talk to collectors and callsites through the same set of calls", floor=3)
     ck.rule("C04.R6", "collector wrappers pass register_callsite / on_register_dispatch / max_level_hint on to the wrapped collector (as C09.R1/R2)", floor=12)
     ck.rule("C04.R5", "every turnover re-evaluates interests and the max level (see C01.R5–R7)", floor=2)
     r1(ck, F)
@@ -80,6 +81,7 @@ def run(ck):
     r3(ck, F)
     r4(ck, F)
     r5(ck, F)
+    r7(ck, F)
     # a collector reached through Box/Arc/Layered must itself be offered every callsite (C09.R1/R2, instantiated)
     from rules import C09
     C09.wrapper_rules(ck, F, rids={"R0": "C04.R6", "R1": "C04.R6", "R2": "C04.R6", "R3": "C04.R6"}, traits=["tracing_core::collect::Collect"],
@@ -332,3 +334,45 @@ def r5(ck, F):
             ck.ok("C04.R5", "%s re-evaluates every callsite and the max level" % fn, fn=b.path)
         else:
             ck.bad("C04.R5", "%s re-evaluates every callsite and the max level" % fn, where(b.raw["sp"]), "rebuild_interest is not on every path", fn=b.path)
+
+
+def effects(F, path, depth=0, seen=None):
+    """Collector- and callsite-facing calls (trait::method) reachable from `path` through tracing_core's own functions."""
+    seen = seen if seen is not None else set()
+    out = set()
+    b = F.body(path)
+    if b is None or path in seen or depth > 5:
+        return out
+    seen.add(path)
+    for x in [b] + F.closures_of(b):
+        for bb, t in x.calls():
+            c = t["callee"]
+            tr, m, p = c.get("trait") or "", c.get("method") or "", c.get("path") or ""
+            if tr in ("tracing_core::collect::Collect", "tracing_core::callsite::Callsite"):
+                out.add("%s::%s" % (tr.rsplit("::", 1)[1], m))
+            elif p == "tracing_core::metadata::LevelFilter::set_max":
+                out.add("LevelFilter::set_max")
+            tgt = c.get("resolved") or p
+            if tgt.startswith("tracing_core::") and F.body(tgt) is not None:
+                out |= effects(F, tgt, depth + 1, seen)
+    return out
+
+
+def r7(ck, F):
+    """Sibling agreement: tracing-core has two implementations of the registry (with a lock and dispatcher list under std,
+    a single global dispatcher without). What a collector / callsite gets told by `register`, `register_dispatch` and
+    `rebuild_interest_cache` must not depend on which one was compiled."""
+    N = Facts("nostd-core")
+    ck.configs.append("nostd-core")
+    for fn in ("register", "register_dispatch", "rebuild_interest_cache"):
+        p = "tracing_core::callsite::inner::" + fn
+        a, b = F.body(p), N.body(p)
+        key = "callsite::%s: std and no_std variants make the same collector/callsite-facing calls" % fn
+        if not (ck.anchor("C04.R7", p + " (std)", a) and ck.anchor("C04.R7", p + " (no_std)", b)):
+            continue
+        ea, eb = effects(F, p), effects(N, p)
+        # the dispatcher list only exists under std: upgrading weak registrars has no no_std counterpart
+        if ea == eb:
+            ck.ok("C04.R7", key, detail=sorted(ea))
+        else:
+            ck.bad("C04.R7", key, where(a.raw["sp"]), "only with std: %s; only without std: %s" % (sorted(ea - eb), sorted(eb - ea)), fn=p)
